@@ -474,3 +474,56 @@ Proof.
     destruct i as [|i]; [simpl in Hne; congruence|]. simpl. lia.
   - destruct l as [|x l]; [congruence|]. simpl. lia.
 Qed.
+
+(* ------------------------------------------------------------------ more on cut (nested readers) *)
+Lemma cut_firstn d l : cut d l = firstn (length (cut d l)) l.
+Proof.
+  unfold cut. destruct (find d l) as [i|]; [|rewrite firstn_all; reflexivity].
+  rewrite firstn_length, firstn_min_length. reflexivity.
+Qed.
+
+Lemma cut_length_le d l : length (cut d l) <= length l.
+Proof. rewrite cut_firstn at 1. rewrite firstn_length. lia. Qed.
+
+Lemma cut_app_rest d l : l = cut d l ++ skipn (length (cut d l)) l.
+Proof. rewrite cut_firstn at 1. symmetry. apply firstn_skipn. Qed.
+
+Lemma upto_le_cut d n l : upto d (Some n) l <= length (cut d l).
+Proof.
+  unfold upto, cut, lim. destruct (find d l) as [i|]; [rewrite firstn_length|]; lia.
+Qed.
+
+Lemma cut_skipn d t l : t <= length (cut d l) -> cut d (skipn t l) = skipn t (cut d l).
+Proof.
+  unfold cut at 1 3. destruct (find d l) as [i|] eqn:Ef.
+  - rewrite firstn_length. intro Ht. assert (Hti : t <= i) by lia.
+    unfold cut. rewrite (find_skipn_Some_le d l i t Ef Hti). rewrite skipn_firstn_comm. reflexivity.
+  - intros _. unfold cut. rewrite (find_skipn_None_all d l t Ef). reflexivity.
+Qed.
+
+Lemma skipn_cut_split d t l : t <= length (cut d l) ->
+  skipn t l = skipn t (cut d l) ++ skipn (length (cut d l)) l.
+Proof.
+  intro Ht. rewrite (cut_app_rest d l) at 1. apply skipn_app_le. exact Ht.
+Qed.
+
+(* the bytes up to the delimiter, followed by the rest from the delimiter on: cutting again
+   gives back the first part *)
+Lemma cut_hidden d W x :
+  cut d (skipn x (cut d W) ++ skipn (length (cut d W)) W) = skipn x (cut d W).
+Proof.
+  rewrite <- (skipn_min_length x (cut d W)).
+  set (x' := Nat.min x (length (cut d W))). assert (Hx : x' <= length (cut d W)) by lia.
+  rewrite <- (skipn_cut_split d x' W Hx). apply cut_skipn. exact Hx.
+Qed.
+
+(* a reader's buffer [B'] followed by its source's view [skipn t' X]: if this is a suffix
+   of the visible part [X], the same holds with the hidden part [D] appended *)
+Lemma ghost_step {A : Type} (X D B' : list A) t' mk :
+  t' <= length X -> mk <= length X -> B' ++ skipn t' X = skipn mk X ->
+  B' ++ skipn t' (X ++ D) = skipn mk (X ++ D) /\ mk + length B' = t'.
+Proof.
+  intros Ht Hm H. split.
+  - rewrite !skipn_app_le by lia. rewrite app_assoc, H. reflexivity.
+  - apply (f_equal (@length A)) in H. rewrite app_length, !skipn_length in H. lia.
+Qed.
